@@ -2171,6 +2171,13 @@ extern int32 matrixCreateSessionTicket(ssl_t *ssl, unsigned char *out,
 extern int32 matrixUnlockSessionTicket(ssl_t *ssl, unsigned char *in,
                                        int32 inLen);
 extern int32 matrixSessionTicketLen(void);
+/* The keys->sessTickets list may be changed at any time by
+   matrixSslLoadSessionTicketKeys/matrixSslDeleteSessionTicketKey: every
+   reader outside matrixssl.c must hold this lock while it looks at the list
+   or at a key taken from it. */
+extern void matrixSessionTicketKeysLock(void);
+extern void matrixSessionTicketKeysUnlock(void);
+extern psBool_t matrixSessionTicketKeysLoaded(sslKeys_t *keys);
 #  endif
 # endif /* USE_SERVER_SIDE_SSL */
 
